@@ -752,7 +752,14 @@ func freshOnHeap(e Expr) bool {
 					// fresh(as(result, *T)): the result itself, unboxed
 					id2, ok := a.Fun.(*EIdent)
 					switch {
-					case ok && id2.Name == "addr":
+					case ok && id2.Name == "addr" && len(a.Args) == 1:
+						// only a direct by-value field of a plain name (result.header): deeper paths go through pointers
+						sel, isSel := a.Args[0].(*ESel)
+						if !isSel {
+							found = true
+						} else if _, plain := sel.X.(*EIdent); !plain {
+							found = true
+						}
 					case ok && id2.Name == "as" && len(a.Args) == 2:
 						if _, plain := a.Args[0].(*EIdent); !plain {
 							found = true
